@@ -240,12 +240,12 @@ Qed.
 (* ---- crude rates: a per-step count divided by the step length of the module that counted it gives back the rate in its own unit ... *)
 Lemma crude_rate_own_step rate alive units dt : 0 < alive -> 0 < units -> 0 < dt -> crude_rate (rate * units * dt * alive) alive units dt == rate.
 Proof. intros A U D. unfold crude_rate. field. repeat split; lra. Qed.
-(* ... and divided by another step length it is off by the ratio of the two: the reported value (sim step) of a module on its own step *)
-Lemma crude_rate_reported_scaled rate alive units sdt mdt : 0 < alive -> 0 < units -> 0 < sdt -> 0 < mdt ->
-  crude_rate_reported (rate * units * mdt * alive) alive units sdt mdt == rate * (mdt / sdt).
+Lemma crude_rate_reported_own rate alive units sdt mdt : 0 < alive -> 0 < units -> 0 < mdt -> crude_rate_reported true (rate * units * mdt * alive) alive units sdt mdt == rate.
+Proof. intros A U M. unfold crude_rate_reported. apply crude_rate_own_step; assumption. Qed.
+(* ... and divided by the sim's step it is off by the ratio of the two (the defect repaired in Births / Deaths / Pregnancy) *)
+Lemma crude_rate_reported_sim_step_scaled rate alive units sdt mdt : 0 < alive -> 0 < units -> 0 < sdt -> 0 < mdt ->
+  crude_rate_reported false (rate * units * mdt * alive) alive units sdt mdt == rate * (mdt / sdt).
 Proof. intros A U S M. unfold crude_rate_reported, crude_rate. field. repeat split; lra. Qed.
-Lemma crude_rate_reported_refuted : exists rate alive units sdt mdt, 0 < alive /\ 0 < units /\ 0 < sdt /\ 0 < mdt /\
-  ~ crude_rate_reported (rate * units * mdt * alive) alive units sdt mdt == rate.
+Lemma crude_rate_reported_sim_step_refuted : exists rate alive units sdt mdt, 0 < alive /\ 0 < units /\ 0 < sdt /\ 0 < mdt /\
+  ~ crude_rate_reported false (rate * units * mdt * alive) alive units sdt mdt == rate.
 Proof. exists 20, 1000, (1 # 1000), (4 # 1461), 1. repeat split; try reflexivity. vm_compute. discriminate. Qed.
-Lemma crude_rate_reported_same_step rate alive units dt : 0 < alive -> 0 < units -> 0 < dt -> crude_rate_reported (rate * units * dt * alive) alive units dt dt == rate.
-Proof. intros A U D. unfold crude_rate_reported. apply crude_rate_own_step; assumption. Qed.
